@@ -45,6 +45,9 @@ def gen_cases(ctx):
             {"poles": [{"kind": "lorentz", "w": 2.1, "g": 0.05, "deps": 1.0}], "cf": 0.5},
             # conductive AND dispersive (metal-like conductivity with a Drude / Lorentz pole): passive, must stay bounded
             {"poles": [{"kind": "drude", "w": 0.5, "g": 0.05}], "cf": 0.5, "sigma": 3.7e6}, {"poles": [{"kind": "lorentz", "w": 0.3, "g": 0.02, "deps": 1.0}], "cf": 0.5, "sigma": 6.0e5}]
+    # layered scenes: a Drude / Lorentz sphere (multi-material object) with a plain block placed after it through its middle
+    stab += [{"poles": [{"kind": "drude", "w": 1.0, "g": 0.02}], "cf": 0.99, "eps": 4.0, "layered": 9},
+             {"poles": [{"kind": "lorentz", "w": 0.6, "g": 0.01, "deps": 2.0}], "cf": 0.9, "eps": 4.0, "layered": 8, "wall": "pec"}][:ctx.pick(1, 2)]
     for _ in range(ctx.pick(2, 12)):
         k = ctx.rng.choice(["lorentz", "drude"])
         p = {"kind": k, "w": round(ctx.rng.uniform(0.02, 0.35), 3), "g": round(ctx.rng.choice([0.0, 0.01, 0.1]), 3)}
@@ -87,6 +90,8 @@ def coq_expr(case, out):
 
 def stab_key(case):
     p = case["poles"][0]
+    if case.get("layered"):      # sphere at eps_inf = 4 under a plain block: bounded on the unchanged tree, not the recorded strong-pole finding
+        return f"unbounded-layered:{p};cf={case['cf']};eps={case.get('eps')}"
     strong = (p["kind"] == "lorentz" and p["w"] >= 0.4 and p.get("deps", 0) >= 2.0) or (p["kind"] == "drude" and p["w"] >= 0.6)
     if strong and case["cf"] >= 0.9:
         return "unbounded-strong-pole-at-courant-factor-ge-0.9"
